@@ -246,3 +246,13 @@ func (s *RefSketch) TaintedAny() bool {
 	_, zok := GranOf(s.Zero)
 	return s.Tainted || s.Pos.Tainted || s.Neg.Tainted || !zok
 }
+
+// ValsCount is the total absorbed weight computed from the value multiset (it
+// stays meaningful when the bin model does not, e.g. after a mapping change).
+func (s *RefSketch) ValsCount() float64 {
+	t := 0.0
+	for _, it := range s.Sorted(0) {
+		t += it.W
+	}
+	return t
+}
